@@ -139,7 +139,31 @@ pub fn text(ascii: bool, max_tokens: usize) -> BoxedStrategy<String> {
     }
     out
   });
-  prop_oneof![300 => short, 1 => long].boxed()
+  // now and then a statement (or a run of line breaks) whose length is exactly at, one below or one above a value at
+  // which a base64-VLQ delta needs one more digit (16, 512, 16384) or a power of two in between, followed by short text:
+  // the next token then starts exactly that many columns (lines) further on
+  let short2 = vec(any::<u16>(), 0..=max_tokens.min(4))
+    .prop_map(move |v| v.into_iter().map(|s| alph[idx(s, alph.len())]).collect::<String>());
+  let threshold = (0u8..14u8, 0u8..3u8, any::<bool>(), short2.clone(), short2).prop_map(|(k, d, lines, pre, post)| {
+    let base = [16usize, 16, 32, 64, 256, 512, 512, 512, 512, 1024, 1024, 4096, 512, 16384][k as usize];
+    let n = base + d as usize - 1;
+    let mut out = pre;
+    if lines {
+      // n line breaks; the token behind them starts n lines further down
+      out.push_str("x;");
+      out.push_str(&"\n".repeat(n));
+    } else {
+      if !out.ends_with('\n') && !out.is_empty() {
+        out.push('\n');
+      }
+      out.push_str(&"a".repeat(n - 1));
+      out.push(';');
+    }
+    out.push_str("b;");
+    out.push_str(&post);
+    out
+  });
+  prop_oneof![300 => short, 1 => long, 2 => threshold].boxed()
 }
 
 /// bytes of a binary leaf: valid UTF-8, or with injected invalid sequences
